@@ -6,7 +6,7 @@
 From Coq Require Import List ZArith Bool Arith Lia.
 From SC Require Import Base.Res Base.PyList Inst.Heap Inst.ClassTable Inst.Model Inst.Canon
   Inst.Abs Inst.SpecHelpers Inst.ElemProofs Inst.Framed Inst.RefineProofs Inst.CopyProofs Inst.ElemRefine
-  Inst.ElemRefine2 Inst.ElemRefine3 Inst.ElemRefine4 Inst.ElemRefine5 Inst.ElemRefine6 Inst.ElemRefine7 Inst.ElemRefine8.
+  Inst.ElemRefine2 Inst.ElemRefine3 Inst.ElemRefine4 Inst.ElemRefine5 Inst.ElemRefine6 Inst.ElemRefine7 Inst.ElemRefine8 Inst.ElemRefine9.
 Import ListNotations.
 Open Scope nat_scope.
 
@@ -668,6 +668,154 @@ Section GuardedMissing.
     exact (without_item_set_missing_refines ct h0 l a c d k sp s Gl Gc Ga Gd Gfz Gni Gnone Gov Gdef Gflat ity voi Hty Hv).
   Qed.
 End GuardedMissing.
+
+(* ------------------------------------------------------------------ *)
+(** * update_<item> / transform_<item> on dicts and sets under the guards *)
+
+(* every value of the dict is a proper scalar *)
+Definition dict_vals_proper (s : state) (l : loc) (a : aid) : bool :=
+  match attr_obj s l a with Some (ODict kvs) => vals_proper kvs | _ => false end.
+
+(* set element addressed by value: the equal element is the very same scalar, and the element
+   the value procedure returns (r) has an unambiguous place in the canonical order *)
+Definition set_change_ok (ct : ctable) (s : state) (l : loc) (a : aid) (voi : val) (r : res val) : bool :=
+  ident_on_eq ct (list_of s l a) voi &&
+  match r with Ok v' => set_key_free ct (list_of s l a) v' | Err _ => true end.
+
+Lemma set_change_ok_facts ct s l a xs voi (pr : val -> res val) :
+  list_of s l a = xs -> set_change_ok ct s l a voi (pr voi) = true ->
+  ident_on_eq ct xs voi = true /\ (forall v', pr voi = Ok v' -> set_key_free ct xs v' = true).
+Proof.
+  unfold set_change_ok. intros -> H. apply andb_true_iff in H. destruct H as [H1 H2]. split; auto.
+  intros v' E. now rewrite E in H2.
+Qed.
+
+Section GuardedChange.
+  Variable ct : ctable.
+  Variable h0 : list obj.
+  Variable s : state.
+  Variables (l : loc) (a : aid).
+
+  Ltac ipfacts kd H :=
+    destruct (elem_guard_sound ct s l a kd H) as [c [d [k [sp [lc [o [G [Hk [Hsp Hob]]]]]]]]];
+    destruct G as [Gl Gc Ga Gd Gfz Gni Gdep Gfld Glc Go Gflat Gsh].
+  Ltac cpfacts kd H :=
+    destruct (copy_guard_sound ct s l a kd H) as [c [d [k [sp [lc [o [G [Hk [Hsp Hob]]]]]]]]];
+    destruct G as [Gl Gc Ga Gd Gdnc Gpc Gni Gdep Gfld Glc Go Gflat Ginit Ga0].
+  Ltac dict_shape Hty Hk :=
+    match goal with sp : attr_spec, o : obj |- _ =>
+      destruct (a_ty sp) as [| | | | | | | |tk tv| |] eqn:Hty; try discriminate Hk;
+      destruct o as [|kvs| |]; try discriminate Hk end.
+  Ltac set_shape Hty Hk :=
+    match goal with sp : attr_spec, o : obj |- _ =>
+      destruct (a_ty sp) as [| | | | | | |ity'| |ity|] eqn:Hty; try discriminate Hk;
+      destruct o as [| |xs|]; try discriminate Hk end.
+
+  Lemma dvp_facts kvs : attr_obj s l a = Some (ODict kvs) -> dict_vals_proper s l a = true -> vals_proper kvs = true.
+  Proof. unfold dict_vals_proper. now intros ->. Qed.
+
+  (* ---------------- dicts ---------------- *)
+  Theorem transform_item_dict_guarded key fo bi :
+    elem_guard ct s l a KDict = true -> dict_vals_proper s l a = true -> fail_at s = None ->
+    nonref key = true -> is_missing key = false -> fo_ok fo ->
+    refines_spec ct h0 s l (HTransformItem a) (mkh [key] true true VMissing false bi None [] fo)
+                 (STransformItem a) (mkah [abs0 key] true true AMissing false bi None [] fo).
+  Proof.
+    intros H Hvp Hfa Hkey Hm Hfo. ipfacts KDict H. dict_shape Hty Hk.
+    exact (transform_item_dict_inplace_refines ct h0 l a c d k sp s lc Gl Gc Ga Gd Gni Gfld Gflat kvs tk tv Hty
+             ltac:(cbn [ty_depth] in Gdep; lia) ltac:(cbn [ty_depth] in Gdep; lia) Glc Go (dvp_facts kvs Hob Hvp)
+             Gfz Gsh key fo bi Hkey Hm Hfa Hfo).
+  Qed.
+
+  Theorem update_item_dict_guarded key v :
+    elem_guard ct s l a KDict = true -> dict_vals_proper s l a = true -> plain_items ct s l a = true ->
+    nonref key = true -> is_missing key = false -> nonref v = true ->
+    refines_spec ct h0 s l (HUpdateItem a) (mkh [key; v] true true VMissing false None None [] None)
+                 (SUpdateItem a) (mkah [abs0 key; abs0 v] true true AMissing false None None [] None).
+  Proof.
+    intros H Hvp Hp Hkey Hm Hnv. ipfacts KDict H.
+    destruct (plain_items_facts ct s l a sp Hsp Hp) as [P1 P2]. dict_shape Hty Hk. cbn [item_type] in P2.
+    exact (update_item_dict_inplace_refines ct h0 l a c d k sp s lc Gl Gc Ga Gd Gni Gfld Gflat kvs tk tv Hty
+             ltac:(cbn [ty_depth] in Gdep; lia) ltac:(cbn [ty_depth] in Gdep; lia) Glc Go (dvp_facts kvs Hob Hvp)
+             Gfz Gsh key v P1 P2 Hkey Hm Hnv).
+  Qed.
+
+  Theorem transform_item_dict_copy_guarded key fo bi :
+    copy_guard ct s l a KDict = true -> dict_vals_proper s l a = true -> fail_at s = None ->
+    nonref key = true -> is_missing key = false -> fo_ok fo ->
+    copy_refines_spec ct h0 s l (HTransformItem a) (mkh [key] false true VMissing false bi None [] fo)
+                      (STransformItem a) (mkah [abs0 key] false true AMissing false bi None [] fo).
+  Proof.
+    intros H Hvp Hfa Hkey Hm Hfo. cpfacts KDict H. dict_shape Hty Hk.
+    exact (transform_item_dict_copy_refines ct h0 l a c d k sp s lc Gl Gc Ga Gd Gni Gfld Gflat kvs tk tv Hty
+             ltac:(cbn [ty_depth] in Gdep; lia) ltac:(cbn [ty_depth] in Gdep; lia) Glc Go (dvp_facts kvs Hob Hvp)
+             Gdnc Gpc Ginit Ga0 key fo bi Hkey Hm Hfa Hfo).
+  Qed.
+
+  Theorem update_item_dict_copy_guarded key v :
+    copy_guard ct s l a KDict = true -> dict_vals_proper s l a = true -> plain_items ct s l a = true ->
+    nonref key = true -> is_missing key = false -> nonref v = true ->
+    copy_refines_spec ct h0 s l (HUpdateItem a) (mkh [key; v] false true VMissing false None None [] None)
+                      (SUpdateItem a) (mkah [abs0 key; abs0 v] false true AMissing false None None [] None).
+  Proof.
+    intros H Hvp Hp Hkey Hm Hnv. cpfacts KDict H.
+    destruct (plain_items_facts ct s l a sp Hsp Hp) as [P1 P2]. dict_shape Hty Hk. cbn [item_type] in P2.
+    exact (update_item_dict_copy_refines ct h0 l a c d k sp s lc Gl Gc Ga Gd Gni Gfld Gflat kvs tk tv Hty
+             ltac:(cbn [ty_depth] in Gdep; lia) ltac:(cbn [ty_depth] in Gdep; lia) Glc Go (dvp_facts kvs Hob Hvp)
+             Gdnc Gpc Ginit Ga0 key v P1 P2 Hkey Hm Hnv).
+  Qed.
+
+  (* ---------------- sets ---------------- *)
+  Theorem transform_item_set_guarded voi fo bi :
+    elem_guard ct s l a KSet = true -> fail_at s = None -> vscalar voi = true -> fo_ok fo ->
+    set_change_ok ct s l a voi (trp fo voi) = true ->
+    refines_spec ct h0 s l (HTransformItem a) (mkh [voi] true true VMissing false bi None [] fo)
+                 (STransformItem a) (mkah [abs0 voi] true true AMissing false bi None [] fo).
+  Proof.
+    intros H Hfa Hv Hfo Hok. ipfacts KSet H. set_shape Hty Hk.
+    destruct (set_change_ok_facts ct s l a xs voi (trp fo) (list_of_set s l a xs Hob) Hok) as [Hid Hkf].
+    exact (transform_item_set_inplace_refines ct h0 l a c d k sp s lc Gl Gc Ga Gd Gni Gfld Gflat xs ity Hty
+             ltac:(cbn [ty_depth] in Gdep; lia) Glc Go Gfz Gsh voi fo bi Hv Hfa Hfo Hid Hkf).
+  Qed.
+
+  Theorem update_item_set_guarded voi v :
+    elem_guard ct s l a KSet = true -> plain_items ct s l a = true -> vscalar voi = true -> nonref v = true ->
+    set_change_ok ct s l a voi (up_pr v voi) = true ->
+    refines_spec ct h0 s l (HUpdateItem a) (mkh [voi; v] true true VMissing false None None [] None)
+                 (SUpdateItem a) (mkah [abs0 voi; abs0 v] true true AMissing false None None [] None).
+  Proof.
+    intros H Hp Hv Hnv Hok. ipfacts KSet H.
+    destruct (plain_items_facts ct s l a sp Hsp Hp) as [P1 P2]. set_shape Hty Hk. cbn [item_type] in P2.
+    destruct (set_change_ok_facts ct s l a xs voi (up_pr v) (list_of_set s l a xs Hob) Hok) as [Hid Hkf].
+    exact (update_item_set_inplace_refines ct h0 l a c d k sp s lc Gl Gc Ga Gd Gni Gfld Gflat xs ity Hty
+             ltac:(cbn [ty_depth] in Gdep; lia) Glc Go Gfz Gsh voi v P1 P2 Hv Hnv Hid Hkf).
+  Qed.
+
+  Theorem transform_item_set_copy_guarded voi fo bi :
+    copy_guard ct s l a KSet = true -> fail_at s = None -> vscalar voi = true -> fo_ok fo ->
+    set_change_ok ct s l a voi (trp fo voi) = true ->
+    copy_refines_spec ct h0 s l (HTransformItem a) (mkh [voi] false true VMissing false bi None [] fo)
+                      (STransformItem a) (mkah [abs0 voi] false true AMissing false bi None [] fo).
+  Proof.
+    intros H Hfa Hv Hfo Hok. cpfacts KSet H. set_shape Hty Hk.
+    destruct (set_change_ok_facts ct s l a xs voi (trp fo) (list_of_set s l a xs Hob) Hok) as [Hid Hkf].
+    exact (transform_item_set_copy_refines ct h0 l a c d k sp s lc Gl Gc Ga Gd Gni Gfld Gflat xs ity Hty
+             ltac:(cbn [ty_depth] in Gdep; lia) Glc Go Gdnc Gpc Ginit Ga0 voi fo bi Hv Hfa Hfo Hid Hkf).
+  Qed.
+
+  Theorem update_item_set_copy_guarded voi v :
+    copy_guard ct s l a KSet = true -> plain_items ct s l a = true -> vscalar voi = true -> nonref v = true ->
+    set_change_ok ct s l a voi (up_pr v voi) = true ->
+    copy_refines_spec ct h0 s l (HUpdateItem a) (mkh [voi; v] false true VMissing false None None [] None)
+                      (SUpdateItem a) (mkah [abs0 voi; abs0 v] false true AMissing false None None [] None).
+  Proof.
+    intros H Hp Hv Hnv Hok. cpfacts KSet H.
+    destruct (plain_items_facts ct s l a sp Hsp Hp) as [P1 P2]. set_shape Hty Hk. cbn [item_type] in P2.
+    destruct (set_change_ok_facts ct s l a xs voi (up_pr v) (list_of_set s l a xs Hob) Hok) as [Hid Hkf].
+    exact (update_item_set_copy_refines ct h0 l a c d k sp s lc Gl Gc Ga Gd Gni Gfld Gflat xs ity Hty
+             ltac:(cbn [ty_depth] in Gdep; lia) Glc Go Gdnc Gpc Ginit Ga0 voi v P1 P2 Hv Hnv Hid Hkf).
+  Qed.
+End GuardedChange.
 
 (* ------------------------------------------------------------------ *)
 (** * A concrete class and receiver: xs : List[int], m : Dict[str, int], t : Set[int] *)
